@@ -268,3 +268,44 @@ def record_attacks(vh, out_dir):
     meta = {'attacks': len(atk), 'weakenings': sorted({a['weaken'] for a in atk}),
             'targets': sorted({'%s/%s' % (a['property'], a['invariant']) for a in atk})}
     return [(tf, bf, len(atk))], meta
+
+
+def record_live_sim(vh, seed, out_dir, wd, chunks=6, num=40):
+    """spec -> code for validator counts too large to enumerate: random simulation of spec/MC_Live.tla (N = 7, two silent
+    primaries, a harmless restart, a partition) prints complete synchronous behaviours; the script driver runs them on real clusters."""
+    import mc
+    cfgs = [mc.live_cfg('sim-n7-silent2-restart', n=7, silent=(2, 1), restart=(3,), maxview=4),
+            mc.live_cfg('sim-n7-silent2', n=7, silent=(2, 1), maxview=4),
+            mc.live_cfg('sim-n7-silent1-cut', n=7, silent=(2,), cutsets=((3,), (1,)), heal=1, maxview=4, anytime=True),
+            mc.live_cfg('sim-n7-silent2-restart-amev', n=7, silent=(2, 1), restart=(4,), maxview=4, amev=True),
+            mc.live_cfg('sim-n5-silent1-restart', n=5, silent=(2,), restart=(0,), maxview=4),
+            mc.live_cfg('sim-n4-silent1-restart-cut', n=4, silent=(2,), restart=(3,), cutsets=((1,),), heal=1, maxview=4, anytime=True)]
+    def one(c):
+        it = dict(cfgs[(seed + c) % len(cfgs)])
+        it['cfg'] = it['cfg'].replace('Emit = FALSE', 'Emit = TRUE').replace('PROPERTY Termination\n', '').replace('INVARIANTS ', 'INVARIANTS EmitDone ')
+        r = mc.run_tlc(it, wd, workers=1, cap=600, simulate=dict(num=num, depth=600, seed=seed * 100 + c))
+        seen, keep = set(), []
+        for ln in r['stdout'].splitlines():
+            if ln.startswith('<<"BEHAVIOUR", "'):
+                try:
+                    evs = json.loads(json.loads(ln.strip()[len('<<"BEHAVIOUR", '):-2]))
+                except Exception:
+                    continue
+                k = json.dumps(evs[:12])      # one behaviour per simulated run (later prints of the same run extend it)
+                if keep and seen and json.dumps(keep[-1][:len(keep[-1])]) == json.dumps(evs[:len(keep[-1])]):
+                    keep[-1] = evs
+                else:
+                    keep.append(evs)
+        if not keep:
+            return None
+        bf = os.path.join(out_dir, 'live-sim-%d-%d.ndjson' % (seed, c))
+        with open(bf, 'w') as o:
+            for evs in keep:
+                o.write(json.dumps(evs) + '\n')
+        tf = os.path.join(out_dir, 'script-live-sim-%d-%d.ndjson' % (seed, c))
+        rr = sh([vh, 'script', '-in', bf, '-runs', '0', '-out', tf], timeout=1800)
+        if rr.returncode != 0:
+            raise Infra('script driver failed: ' + rr.stdout[-1500:])
+        return tf, bf, len(keep)
+    with ThreadPoolExecutor(max_workers=NCPU) as ex:
+        return [r for r in ex.map(one, range(chunks)) if r]
